@@ -557,7 +557,9 @@ def obligations(tier: str) -> List[Ob]:
         add(kernel, 'kt_transformer', tree, maxlen or n_std, timeout * tscale, **kw)
 
     # ---- K1
-    m('K1', ('empty',), n_cheap)
+    # (is-empty renders repr(first line) eagerly when it does not match: the text is realised, one path per
+    # concrete text, so the obligations that contain it get the smaller bound)
+    m('K1', ('empty',), n_std)
     m('K1', ('equals',), n_std, maxlen_e=n_std, alphabet_e=L.ALPHABET)
     m('K1', ('equals-lit', ''), n_cheap)
     for op in L.OPS:
@@ -576,10 +578,11 @@ def obligations(tier: str) -> List[Ob]:
         m('K1', ('matches', False, 'a|a.'), n_cheap)
     m('K1', ('not', ('empty',)))
     m('K1', ('not', ('matches', False, 'a')))
-    m('K1', ('and', ('not', ('empty',)), ('numlines', '<=')))
+    m('K1', ('and', ('not', ('empty',)), ('numlines', '<=')), 2 if quick else 3)
+    m('K1', ('and', ('not', ('matches', False, 'b')), ('numlines', '<=')))
     m('K1', ('or', ('matches', True, 'a'), ('equals-lit', 'a\n')))
     m('K1', ('and', ('matches', False, 'a'), ('or', ('matches', False, '\\.'), ('numlines', '>'))))
-    m('K1', ('not', ('or', ('empty',), ('equals',))), maxlen_e=1 if quick else 2)
+    m('K1', ('not', ('or', ('empty',), ('equals',))), 2 if quick else 3, maxlen_e=1 if quick else 2)
     m('K1', ('numlines', '=='), name='seeded-oracle-error', expect=ob.REFUTE, ref_tree=('numlines', '>='))
 
     # ---- K2
@@ -726,7 +729,7 @@ def obligations(tier: str) -> List[Ob]:
     def a7(tree, maxlen=None, timeout=300, **kw):
         add('K7', 'k7_assertion', tree, maxlen or n_std, timeout * tscale, **kw)
 
-    a7(('empty',), n_cheap)
+    a7(('empty',), n_std)
     a7(('equals',), maxlen_e=1 if quick else 2)
     a7(('not', ('every', ('contents', ('matches', True, 'dot')))))
     a7(('on', ('strip-tnl',), ('numlines', '<')))
